@@ -445,3 +445,96 @@ def ob_g_shared(ob):
     """translation behaviour of the dipole (shift by total charge times t, none for neutral molecules) follows from the dipole being the one implied by charges and density"""
     ob.note("this obligation is the one registered as C14.b; it is also decided here because translation behaviour of the dipole (shift by total charge times t, none for neutral molecules) follows from the dipole being the one implied by charges and density")
     _C14_mod.ob_b(ob)
+
+
+def replay_rotate_core(v):
+    """float64: real GenerateRotationMatrix + RotateCore at direction v with generic local-frame core integrals: the
+    rotation-invariant scalars (block traces and Frobenius norms) of the rotated integrals must equal the local-frame ones"""
+    from seqm.seqm_functions.RotationMatrixD import GenerateRotationMatrix, RotateCore
+
+    x = torch.tensor([v], dtype=torch.float64)
+    x = x / x.norm()
+    core = torch.tensor([[0.3 + 0.07 * i for i in range(45)]], dtype=torch.float64)
+    r = RotateCore(core, GenerateRotationMatrix(x).double(), 3)[0]
+    c = core[0]
+    ds, dp, ddiag = [10, 15, 21, 28, 36], [11, 12, 13, 16, 17, 18, 22, 23, 24, 29, 30, 31, 37, 38, 39], [14, 20, 27, 35, 44]
+    dd = [14, 19, 20, 25, 26, 27, 32, 33, 34, 35, 40, 41, 42, 43, 44]
+    dev = {
+        "ds norm": (r[ds] ** 2).sum() - c[21] ** 2,
+        "ps norm": r[1] ** 2 + r[3] ** 2 + r[6] ** 2 - c[6] ** 2,
+        "pp trace": r[2] + r[5] + r[9] - (c[9] + 2 * c[2]),
+        "dd trace": r[ddiag].sum() - (c[27] + 2 * c[20] + 2 * c[14]),
+        "pp frob": r[2] ** 2 + r[5] ** 2 + r[9] ** 2 + 2 * (r[4] ** 2 + r[7] ** 2 + r[8] ** 2) - (c[9] ** 2 + 2 * c[2] ** 2),
+        "dp frob": (r[dp] ** 2).sum() - (c[24] ** 2 + 2 * c[16] ** 2),
+        "dd frob": sum(r[k] ** 2 * (1 if k in ddiag else 2) for k in dd) - (c[27] ** 2 + 2 * c[20] ** 2 + 2 * c[14] ** 2),
+    }
+    worst = max(abs(t.item()) for t in dev.values())
+    print("replay RotateCore at v=%s: deviations of the invariants %s" % ([round(t, 4) for t in x[0].tolist()], {k: "%.2e" % t.item() for k, t in dev.items()}))
+    return worst > 1e-9
+
+
+@obligation(PID, "e", title="d-orbital core-attraction integrals (PM6): RotateCore applied to the matrix of GenerateRotationMatrix preserves the rotation-invariant scalars of every block (|d-s|, |p-s|, traces of p-p and d-d, Frobenius norms of p-p, d-p, d-d) for every bond direction and arbitrary local-frame integrals — so no element is left unrotated or unfilled")
+def ob_e(ob):
+    from seqm.seqm_functions.RotationMatrixD import GenerateRotationMatrix, RotateCore
+
+    ob.encodes(GenerateRotationMatrix, RotateCore)
+    ob.bound("all unit vectors (3 symbolic reals), regular and polar branch by path forking; the 45 local-frame integrals symbolic; quadratic invariants decided coefficient by coefficient")
+    ob.assume("the 13-digit literal PT5SQ3 = 0.8660254037841 is read as sqrt(3)/2 (relative deviation 4e-13; with the literal itself the invariants hold to ~1e-12 only)")
+    vx, vy, vz, s3h = z3.Reals("vx vy vz s3h")
+    V = [vx, vy, vz]
+    unit = [vx * vx + vy * vy + vz * vz == 1, s3h > 0, 4 * s3h * s3h == 3]
+    c = [z3.Real("c%d" % i) for i in range(45)]
+    S.FLOAT_ALIAS[0.8660254037841] = s3h
+
+    def fn():
+        x = SymTensor(np.array([[vx, vy, vz]], dtype=object))
+        with symbolic_factories():
+            M = GenerateRotationMatrix(x)
+            rot = RotateCore(SymTensor(np.array([c], dtype=object)), M, 3)
+        return rot.a[0].copy()
+
+    try:
+        ex = Explorer(assumptions=unit, piecewise="ite", kind="nra")
+        res = ex.run(fn)
+    finally:
+        S.FLOAT_ALIAS.clear()
+    ob.paths += ex.paths
+    ob.require(ex.paths >= 2, "expected regular and polar paths, got %d" % ex.paths)
+    ds, dp, ddiag = [10, 15, 21, 28, 36], [11, 12, 13, 16, 17, 18, 22, 23, 24, 29, 30, 31, 37, 38, 39], [14, 20, 27, 35, 44]
+    dd = [14, 19, 20, 25, 26, 27, 32, 33, 34, 35, 40, 41, 42, 43, 44]
+    for pc, side, r in res:
+        S.ST.side[:] = side
+        base = unit + list(pc)
+        lin = [("pp trace", r[2] + r[5] + r[9], c[9] + 2 * c[2], (c[9], c[2])), ("dd trace", sum(r[k] for k in ddiag), c[27] + 2 * c[20] + 2 * c[14], (c[27], c[20], c[14]))]
+        quad = [
+            ("ds norm", sum(r[k] * r[k] for k in ds), c[21] * c[21], (c[21],)),
+            ("ps norm", r[1] * r[1] + r[3] * r[3] + r[6] * r[6], c[6] * c[6], (c[6],)),
+            ("pp frob", r[2] * r[2] + r[5] * r[5] + r[9] * r[9] + 2 * (r[4] * r[4] + r[7] * r[7] + r[8] * r[8]), c[9] * c[9] + 2 * c[2] * c[2], (c[9], c[2])),
+            ("dp frob", sum(r[k] * r[k] for k in dp), c[24] * c[24] + 2 * c[16] * c[16], (c[24], c[16])),
+            ("dd frob", sum(r[k] * r[k] * (1 if k in ddiag else 2) for k in dd), c[27] * c[27] + 2 * c[20] * c[20] + 2 * c[14] * c[14], (c[27], c[20], c[14])),
+        ]
+        if ob.tier != "thorough":
+            quad = [q for q in quad if q[0] != "dd frob"]  # degree-8 identities: minutes each, thorough tier only
+        claims = []
+        for name, got, want, vs in lin:
+            for v1 in vs:
+                sub = [(x, z3.RealVal(1 if x is v1 else 0)) for x in c]
+                claims.append(("%s, coefficient of %s" % (name, v1), z3.substitute(got, *sub) == z3.substitute(want, *sub)))
+        for name, got, want, vs in quad:
+            pts = [tuple(1 if j == i else 0 for j in range(len(vs))) for i in range(len(vs))] + [tuple(1 if j in (i, k) else 0 for j in range(len(vs))) for i in range(len(vs)) for k in range(i + 1, len(vs))]
+            for pt in pts:
+                val = dict(zip([str(x) for x in vs], pt))
+                sub = [(x, z3.RealVal(val.get(str(x), 0))) for x in c]
+                claims.append(("%s at %s" % (name, val), z3.substitute(got, *sub) == z3.substitute(want, *sub)))
+        for name, cl in claims:
+            lab = "e:%s" % name
+            v, m = smt.prove(cl, base, lab, "nra", 90 if ob.tier != "thorough" else 900)
+            if v == "sat":
+                vv = [float(smt.model_value(m, x)) for x in V]
+                if replay_rotate_core(vv):
+                    ob.violation("RotateCore/GenerateRotationMatrix do not preserve '%s' at v=%s: a d-orbital core-attraction element is rotated wrongly or left unfilled, so PM6 energies depend on the orientation" % (name, vv), {"module": "harness.C02", "func": "replay_rotate_core", "args": {"v": vv}})
+                    return
+                raise HarnessError("RotateCore counterexample at v=%s did not reproduce (%s)" % (vv, name))
+            ob.verdict(v, lab)
+    x, y = z3.Reals("x y")
+    expect_refuted(ob, x * x + y * y == 1, [x * x + y * y + 0 * x == 1 - y * y], "twin: a norm that misses one component", "nra")
